@@ -470,7 +470,7 @@ func subMalformed() mon.Sub {
 					// header line, before and after it: the handshake must fail and no 101 may be written
 					if ci%21 == 0 {
 						bad := optionText(o)
-						for li, lines := range [][]string{{bad}, {bad + ", x-foo"}, {bad + ", permessage-deflate"}, {"x-foo; a=1, " + bad}, {"x-foo", bad + ", x-bar"}, {bad, "permessage-deflate"}, {"permessage-deflate; client_no_context_takeover; client_no_context_takeover=1", bad}} {
+						for li, lines := range [][]string{{bad}, {bad + ", x-foo"}, {bad + ", permessage-deflate"}, {"x-foo; a=1, " + bad}, {"x-foo", bad + ", x-bar"}, {bad, "permessage-deflate"}, {bad, "x-foo", "permessage-deflate"}, {"permessage-deflate; client_no_context_takeover; client_no_context_takeover=1", bad}} {
 							c.Count(1)
 							req := "GET / HTTP/1.1\r\nHost: x\r\nUpgrade: websocket\r\nConnection: Upgrade\r\nSec-WebSocket-Version: 13\r\nSec-WebSocket-Key: dGhlIHNhbXBsZSBub25jZQ==\r\n"
 							for _, l := range lines {
@@ -479,6 +479,13 @@ func subMalformed() mon.Sub {
 							he := &wsflate.Extension{Parameters: cfgOf(ci)}
 							rec := xport.NewRec()
 							_, uerr := ws.Upgrader{Negotiate: he.Negotiate}.Upgrade(xport.RW{Reader: strings.NewReader(req + "\r\n"), Writer: rec})
+							// ... and through the net/http based upgrader, which gets the lines as a []string
+							hne := &wsflate.Extension{Parameters: cfgOf(ci)}
+							if hw, _, herr, reached := httpUpgrade(req+"\r\n", hne.Negotiate); reached && (herr == nil || bytes.HasPrefix(hw, []byte("HTTP/1.1 101"))) {
+								c.Fail("malformed/http-header-path-accepted/"+b.name, fmt.Sprintf("an HTTPUpgrader upgrade whose Sec-WebSocket-Extensions lines %q contain a malformed permessage-deflate offer succeeded (err=%v)", lines, herr),
+									map[string]interface{}{"lines": lines, "shape": li, "config": fmt.Sprintf("%+v", cfgOf(ci)), "response": string(hw)})
+								return
+							}
 							if uerr == nil || bytes.HasPrefix(rec.Bytes(), []byte("HTTP/1.1 101")) {
 								c.Fail("malformed/header-path-accepted/"+b.name, fmt.Sprintf("an upgrade whose Sec-WebSocket-Extensions lines %q contain a malformed permessage-deflate offer succeeded (err=%v)", lines, uerr),
 									map[string]interface{}{"lines": lines, "shape": li, "config": fmt.Sprintf("%+v", cfgOf(ci)), "response": string(rec.Bytes())})
